@@ -16,6 +16,13 @@ Definition read_typed (U : file -> res kust) (f : file) : res kust :=
 Definition write_file (R : kust -> string -> list line) (f : file) (k : kust) : file :=
   mkFile (marshal (parse_commented_fields f) (render_field R k)) None.
 
+(* Domain of the go-yaml round-trip assumption for one write: every comment line marshal re-emits
+   is [plain], and no rendered field contains a blank or comment-looking line (no multi-line string
+   value with such a line).  Outside it a re-emitted comment can be lexed as scalar content. *)
+Definition write_is_plain (R : kust -> string -> list line) (f : file) (k : kust) : bool :=
+  forallb plain_comment (kept_comments (parse_commented_fields f)) &&
+  forallb (fun n => forallb (fun l => negb (is_comment_or_blank l)) (render_field R k n)) gen_field_order.
+
 (* the command line tool: outcome class and the file afterwards *)
 Definition edit_file (e : env) (U : file -> res kust) (R : kust -> string -> list line)
            (f : file) (o : op) : oclass * file :=
